@@ -162,11 +162,19 @@ pub struct Env {
     pub umask: u32,
     pub mode: Option<u32>,
     pub symlink: bool,
+    /// Modification time of the pre-existing file, in seconds before now (negative: in the future).
+    /// A daemon only stores through its mapping: the inode's mtime is as old as the daemon that
+    /// created it, or older.
+    pub mtime_age_s: Option<i64>,
+    /// Owner of the pre-existing file (the previous daemon ran under another account).
+    pub owner: Option<u32>,
+    /// The pre-existing file has a second name (a hard link, e.g. left by a backup tool).
+    pub hardlink: bool,
 }
 
 impl Default for Env {
     fn default() -> Env {
-        Env { umask: 0o022, mode: None, symlink: false }
+        Env { umask: 0o022, mode: None, symlink: false, mtime_age_s: None, owner: None, hardlink: false }
     }
 }
 
@@ -179,19 +187,24 @@ impl Env {
             umask: *rng.pick(&[0o022, 0o002, 0o000, 0o077, 0o027, 0o007]),
             mode: if rng.chance(1, 2) { Some(*rng.pick(&[0o644, 0o664, 0o666, 0o600, 0o660, 0o640])) } else { None },
             symlink: rng.chance(1, 4),
+            mtime_age_s: if rng.chance(1, 3) { Some(*rng.pick(&[30i64, 1005, 86_400, 400 * 86_400, 20 * 365 * 86_400, -3600])) } else { None },
+            owner: if rng.chance(1, 6) { Some(*rng.pick(&[12345u32, 65534])) } else { None },
+            hardlink: rng.chance(1, 8),
         }
     }
     pub fn to_json(&self) -> Value {
-        json!({"umask": self.umask, "mode": self.mode, "symlink": self.symlink})
+        json!({"umask": self.umask, "mode": self.mode, "symlink": self.symlink, "mtime_age_s": self.mtime_age_s, "owner": self.owner, "hardlink": self.hardlink})
     }
     pub fn from_json(v: &Value) -> Env {
         if v.is_null() {
             return Env::default();
         }
-        Env { umask: v["umask"].as_u64().unwrap_or(0o022) as u32, mode: v["mode"].as_u64().map(|m| m as u32), symlink: v["symlink"].as_bool().unwrap_or(false) }
+        Env { umask: v["umask"].as_u64().unwrap_or(0o022) as u32, mode: v["mode"].as_u64().map(|m| m as u32), symlink: v["symlink"].as_bool().unwrap_or(false),
+              mtime_age_s: v["mtime_age_s"].as_i64(), owner: v["owner"].as_u64().map(|m| m as u32), hardlink: v["hardlink"].as_bool().unwrap_or(false) }
     }
     pub fn name(&self) -> String {
-        format!("umask{:03o}/{}{}", self.umask, self.mode.map(|m| format!("mode{:03o}", m)).unwrap_or_else(|| "mode-".into()), if self.symlink { "/symlink" } else { "" })
+        format!("umask{:03o}/{}{}{}{}{}", self.umask, self.mode.map(|m| format!("mode{:03o}", m)).unwrap_or_else(|| "mode-".into()), if self.symlink { "/symlink" } else { "" },
+                self.mtime_age_s.map(|a| format!("/mtime-{}s", a)).unwrap_or_default(), self.owner.map(|o| format!("/uid{}", o)).unwrap_or_default(), if self.hardlink { "/hardlink" } else { "" })
     }
 }
 
@@ -492,6 +505,24 @@ pub fn run_scenario(sc: &Scenario, dir: &Path, record_sites: bool, keep_events: 
     if let (Some(mode), true) = (sc.env.mode, real.exists()) {
         use std::os::unix::fs::PermissionsExt;
         std::fs::set_permissions(&real, std::fs::Permissions::from_mode(mode)).unwrap();
+    }
+    let _ = std::fs::remove_file(sub.join("shm.second-name"));
+    if real.exists() {
+        let c = CString::new(real.to_str().unwrap()).unwrap();
+        if let Some(uid) = sc.env.owner {
+            // (needs root; silently without effect otherwise)
+            unsafe { libc::chown(c.as_ptr(), uid, u32::MAX) };
+        }
+        if sc.env.hardlink {
+            let _ = std::fs::hard_link(&real, sub.join("shm.second-name"));
+        }
+        if let Some(age) = sc.env.mtime_age_s {
+            let mut now = libc::timespec { tv_sec: 0, tv_nsec: 0 };
+            unsafe { libc::syscall(libc::SYS_clock_gettime, libc::CLOCK_REALTIME as libc::c_long, &mut now as *mut libc::timespec) };
+            let t = libc::timespec { tv_sec: now.tv_sec - age, tv_nsec: 0 };
+            let times = [t, t];
+            unsafe { libc::utimensat(libc::AT_FDCWD, c.as_ptr(), times.as_ptr(), 0) };
+        }
     }
     let (s0, p0, _usable0) = sc.start.progress();
 
